@@ -105,6 +105,18 @@ type dbState struct {
 	bylinked map[string]dbRes
 	byded    map[string]dbRes
 	lines    []string
+
+	// Campaign store only (the state was derived from backend messages):
+	// extra is added to every replay; observe sees every outcome before the
+	// property oracle does; late yields model ops known only after serving (the backend's answers to
+	// device-creation requests); refProf / refDev are the harness's reading of
+	// the messages by ID.
+	extra     map[string]any
+	late      func() []string
+	observe   func(v *srvVariant, q *request, o *outcome, replay func() any)
+	refProf   func(id string) *agd.Profile
+	refDev    func(id string) *devInfo
+	adoptAuto func(c createRec) *devInfo
 }
 
 func hx(s string) string { return "x" + hex.EncodeToString([]byte(s)) }
@@ -189,27 +201,27 @@ var (
 	// "secret1" is a device whose ID is also one of the fixture passwords, so
 	// that a check of the wrong string (user name instead of password) can
 	// succeed.
-	devIDs      = []string{"dev1", "abcd1234", "a", "z9", "DevX", "otr", "hum1", "hum2", "auto1", "secret1", "hum3"}
-	devProfile  = map[string]string{"dev1": "prof1", "abcd1234": "prof1", "hum1": "prof1", "hum3": "prof1", "a": "prof2", "z9": "prof2", "DevX": "prof2", "hum2": "prof2", "otr": "p3", "auto1": "p3", "secret1": "p3"}
+	devIDs     = []string{"dev1", "abcd1234", "a", "z9", "DevX", "otr", "hum1", "hum2", "auto1", "secret1", "hum3"}
+	devProfile = map[string]string{"dev1": "prof1", "abcd1234": "prof1", "hum1": "prof1", "hum3": "prof1", "a": "prof2", "z9": "prof2", "DevX": "prof2", "hum2": "prof2", "otr": "p3", "auto1": "p3", "secret1": "p3"}
 	// "tv-d" is what a label cut one label too late ("tv.d" of "otr-prof1-tv.d…") normalises to.
-	devHuman    = map[string]string{"hum1": "my-phone", "hum2": "tv", "hum3": "tv-d"}
+	devHuman = map[string]string{"hum1": "my-phone", "hum2": "tv", "hum3": "tv-d"}
 	// "a" is linked to a link-local address: sockets report such clients with a
 	// zone (fe80::1%eth0), which equals no stored address.
-	devLinked   = map[string]string{"dev1": "198.51.100.1", "z9": "2001:db8::1", "hum1": "198.51.100.2", "a": "fe80::1"}
-	devDed      = map[string][]string{"abcd1234": {"192.0.2.10"}, "a": {"192.0.2.11", "2001:db8::2"}, "DevX": {"192.0.2.2"}}
-	profIDs     = []string{"prof1", "prof2", "p3"}
+	devLinked = map[string]string{"dev1": "198.51.100.1", "z9": "2001:db8::1", "hum1": "198.51.100.2", "a": "fe80::1"}
+	devDed    = map[string][]string{"abcd1234": {"192.0.2.10"}, "a": {"192.0.2.11", "2001:db8::2"}, "DevX": {"192.0.2.2"}}
+	profIDs   = []string{"prof1", "prof2", "p3"}
 	// The last entries: a dedicated address of abcd1234 as a *remote* address and
 	// a linked address of dev1 as a *local* one (neither may recognise), the
 	// IPv4-mapped and the zoned spellings a socket can report.  (The globally
 	// blocked client 203.0.113.66 is used by genGate only.)
-	remoteIPs   = []string{"198.51.100.1", "198.51.100.2", "2001:db8::1", "203.0.113.9", "192.0.2.10", "::ffff:198.51.100.1",
+	remoteIPs = []string{"198.51.100.1", "198.51.100.2", "2001:db8::1", "203.0.113.9", "192.0.2.10", "::ffff:198.51.100.1",
 		"fe80::1", "fe80::1%eth0", "::ffff:198.51.100.2"}
-	localAddrs  = []string{"192.0.2.2:53", "192.0.2.2:5353", "192.0.2.10:53", "192.0.2.11:53", "[2001:db8::2]:53", "192.0.2.77:53",
+	localAddrs = []string{"192.0.2.2:53", "192.0.2.2:5353", "192.0.2.10:53", "192.0.2.11:53", "[2001:db8::2]:53", "192.0.2.77:53",
 		"198.51.100.1:53", "[::ffff:192.0.2.10]:53", "[::ffff:192.0.2.2]:53", "[2001:db8::2%eth0]:53", "[fe80::1%eth0]:53"}
 	blockedClient = netip.MustParseAddr("203.0.113.66")
-	humanKeys   = []string{"my-phone", "tv", "a-b", "tv-d"}
-	createHuman = []string{"My-Phone", "my-phone", "tv", "TV", "a-b", "A-b"}
-	createDTs   = []int{1, 9}
+	humanKeys     = []string{"my-phone", "tv", "a-b", "tv-d"}
+	createHuman   = []string{"My-Phone", "my-phone", "tv", "TV", "a-b", "A-b"}
+	createDTs     = []int{1, 9}
 )
 
 // genDB builds a well-formed database state: every successful lookup returns
@@ -484,92 +496,102 @@ func buildWorld() (w *world) {
 	// installs the empty finder): nothing may ever be recognised there.
 	specs = append(specs, fxSpec{doms: domainSets[1], off: true}, fxSpec{doms: domainSets[0], off: true})
 	for di, spec := range specs {
-		doms := spec.doms
-		fx := &fixture{}
-		get := func() *dbState { fx.gate("db"); return fx.cur }
-		pdb := &agdtest.ProfileDB{
-			OnCreateAutoDevice: func(_ context.Context, id agd.ProfileID, h agd.HumanID, dt agd.DeviceType) (*agd.Profile, *agd.Device, error) {
-				return get().create[[3]string{string(id), string(h), fmt.Sprint(int(dt))}].ret()
-			},
-			OnProfileByDedicatedIP: func(_ context.Context, ip netip.Addr) (*agd.Profile, *agd.Device, error) {
-				return get().byded[ip.String()].ret()
-			},
-			OnProfileByDeviceID: func(_ context.Context, id agd.DeviceID) (*agd.Profile, *agd.Device, error) {
-				return get().byid[string(id)].ret()
-			},
-			OnProfileByHumanID: func(_ context.Context, id agd.ProfileID, h agd.HumanIDLower) (*agd.Profile, *agd.Device, error) {
-				return get().byhuman[[2]string{string(id), string(h)}].ret()
-			},
-			OnProfileByLinkedIP: func(_ context.Context, ip netip.Addr) (*agd.Profile, *agd.Device, error) {
-				return get().bylinked[ip.String()].ret()
-			},
-		}
-		var servers []*agd.Server
-		var vs []*srvVariant
-		for _, proto := range allProtos {
-			for _, linked := range []bool{false, true} {
-				for bk := 0; bk < 4; bk++ {
-					bd, blines := bindData(bk)
-					name := fmt.Sprintf("s%d_%s_%s_%d", di, protoNames[proto], b2s(linked), bk)
-					srv := stack.NewServer(name, proto, linked, bd...)
-					servers = append(servers, srv)
-					lines := []string{fmt.Sprintf("srv %s %s %s", protoNames[proto], b2s(linked), b2s(!spec.off))}
-					lines = append(lines, blines...)
-					for _, d := range doms {
-						lines = append(lines, "dom "+hx(d))
-					}
-					vs = append(vs, &srvVariant{srv: srv, proto: proto, linked: linked, bindK: bk, domains: doms, profilesOff: spec.off, st: fx, lines: lines})
-				}
-			}
-		}
-		fx.st = stack.New(&stack.Config{
-			ProfileDB:     pdb,
-			Servers:       servers,
-			DeviceDomains:    append([]string{}, doms...),
-			ProfilesDisabled: spec.off,
-			// The global access manager blocks one client address and one name.
-			Access: &agdtest.AccessManager{
-				OnIsBlockedHost: func(host string, _ uint16) bool { return strings.HasPrefix(strings.ToLower(host), "gblocked.") },
-				OnIsBlockedIP:   func(ip netip.Addr) bool { return ip == blockedClient },
-			},
-			Upstream: dnsserver.HandlerFunc(func(ctx context.Context, rw dnsserver.ResponseWriter, req *dns.Msg) error {
-				ri := agd.MustRequestInfoFromContext(ctx)
-				// Only after a possible wait: what this request is attributed
-				// to when it is finally processed.
-				fx.gate("handler")
-				s := seen{reached: true}
-				switch res := ri.DeviceResult.(type) {
-				case nil:
-					s.kind = "none"
-				case *agd.DeviceResultOK:
-					s.kind = "ok"
-				case *agd.DeviceResultAuthenticationFailure:
-					s.kind = "authfail"
-					s.authErr = res.Err.Error()
-				case *agd.DeviceResultError:
-					s.kind = "error"
-				case *agd.DeviceResultUnknownDedicated:
-					s.kind = "unkded"
-				default:
-					s.kind = fmt.Sprintf("%T", res)
-				}
-				s.p, s.d = ri.DeviceData()
-				fx.mu.Lock()
-				fx.last = s
-				if fx.seenByID != nil {
-					fx.seenByID[req.Id] = s
-				}
-				fx.mu.Unlock()
-				resp := (&dns.Msg{}).SetReply(req)
-
-				return rw.WriteMsg(ctx, req, resp)
-			}),
-		})
+		fx, vs := buildFixture(fmt.Sprint(di), spec.doms, spec.off, nil)
 		w.fixtures = append(w.fixtures, fx)
 		w.variants = append(w.variants, vs...)
 	}
 
 	return w
+}
+
+// buildFixture builds one server group (6 protocols x linked-IP x 4 bind
+// layouts) over the production stack.  With realDB == nil the profile database
+// is the fake that answers from fx.cur; otherwise it is realDB.
+func buildFixture(tag string, doms []string, off bool, realDB profiledb.Interface) (fx *fixture, vs []*srvVariant) {
+	fx = &fixture{}
+	get := func() *dbState { fx.gate("db"); return fx.cur }
+	var pdb profiledb.Interface = &agdtest.ProfileDB{
+		OnCreateAutoDevice: func(_ context.Context, id agd.ProfileID, h agd.HumanID, dt agd.DeviceType) (*agd.Profile, *agd.Device, error) {
+			return get().create[[3]string{string(id), string(h), fmt.Sprint(int(dt))}].ret()
+		},
+		OnProfileByDedicatedIP: func(_ context.Context, ip netip.Addr) (*agd.Profile, *agd.Device, error) {
+			return get().byded[ip.String()].ret()
+		},
+		OnProfileByDeviceID: func(_ context.Context, id agd.DeviceID) (*agd.Profile, *agd.Device, error) {
+			return get().byid[string(id)].ret()
+		},
+		OnProfileByHumanID: func(_ context.Context, id agd.ProfileID, h agd.HumanIDLower) (*agd.Profile, *agd.Device, error) {
+			return get().byhuman[[2]string{string(id), string(h)}].ret()
+		},
+		OnProfileByLinkedIP: func(_ context.Context, ip netip.Addr) (*agd.Profile, *agd.Device, error) {
+			return get().bylinked[ip.String()].ret()
+		},
+	}
+	if realDB != nil {
+		pdb = realDB
+	}
+	var servers []*agd.Server
+	for _, proto := range allProtos {
+		for _, linked := range []bool{false, true} {
+			for bk := 0; bk < 4; bk++ {
+				bd, blines := bindData(bk)
+				name := fmt.Sprintf("s%s_%s_%s_%d", tag, protoNames[proto], b2s(linked), bk)
+				srv := stack.NewServer(name, proto, linked, bd...)
+				servers = append(servers, srv)
+				lines := []string{fmt.Sprintf("srv %s %s %s", protoNames[proto], b2s(linked), b2s(!off))}
+				lines = append(lines, blines...)
+				for _, d := range doms {
+					lines = append(lines, "dom "+hx(d))
+				}
+				vs = append(vs, &srvVariant{srv: srv, proto: proto, linked: linked, bindK: bk, domains: doms, profilesOff: off, st: fx, lines: lines})
+			}
+		}
+	}
+	fx.st = stack.New(&stack.Config{
+		ProfileDB:        pdb,
+		Servers:          servers,
+		DeviceDomains:    append([]string{}, doms...),
+		ProfilesDisabled: off,
+		// The global access manager blocks one client address and one name.
+		Access: &agdtest.AccessManager{
+			OnIsBlockedHost: func(host string, _ uint16) bool { return strings.HasPrefix(strings.ToLower(host), "gblocked.") },
+			OnIsBlockedIP:   func(ip netip.Addr) bool { return ip == blockedClient },
+		},
+		Upstream: dnsserver.HandlerFunc(func(ctx context.Context, rw dnsserver.ResponseWriter, req *dns.Msg) error {
+			ri := agd.MustRequestInfoFromContext(ctx)
+			// Only after a possible wait: what this request is attributed
+			// to when it is finally processed.
+			fx.gate("handler")
+			s := seen{reached: true}
+			switch res := ri.DeviceResult.(type) {
+			case nil:
+				s.kind = "none"
+			case *agd.DeviceResultOK:
+				s.kind = "ok"
+			case *agd.DeviceResultAuthenticationFailure:
+				s.kind = "authfail"
+				s.authErr = res.Err.Error()
+			case *agd.DeviceResultError:
+				s.kind = "error"
+			case *agd.DeviceResultUnknownDedicated:
+				s.kind = "unkded"
+			default:
+				s.kind = fmt.Sprintf("%T", res)
+			}
+			s.p, s.d = ri.DeviceData()
+			fx.mu.Lock()
+			fx.last = s
+			if fx.seenByID != nil {
+				fx.seenByID[req.Id] = s
+			}
+			fx.mu.Unlock()
+			resp := (&dns.Msg{}).SetReply(req)
+
+			return rw.WriteMsg(ctx, req, resp)
+		}),
+	})
+
+	return fx, vs
 }
 
 // ---------------------------------------------------------------------------
@@ -1332,21 +1354,40 @@ func (rn *runner) flush() {
 // runCase runs the requests against one server variant and one DB state.
 func (rn *runner) runCase(v *srvVariant, db *dbState, reqs []*request, campaign string) {
 	r := rn.r
-	rn.lines = append(rn.lines, v.lines...)
-	rn.lines = append(rn.lines, db.lines...)
+	// late: model ops that are known only after the requests were served (what
+	// the backend answered to the creation requests they caused).
+	late := func() []string {
+		if db.late == nil {
+			return nil
+		}
+
+		return db.late()
+	}
+	type served struct {
+		line, got string
+		ops       func() any
+	}
+	done := make([]served, 0, len(reqs))
 	for _, q := range reqs {
 		o := serve(v, db, q)
 		line := q.line()
+		observed := o.canon()
 		replay := func() any {
-			ops := append(append(append([]string{}, v.lines...), db.lines...), line)
+			ops := append(append(append(append([]string{}, v.lines...), db.lines...), late()...), line)
+			m := map[string]any{"campaign": campaign, "server": string(v.srv.Name), "ops": ops, "observed": observed}
+			for k, x := range db.extra {
+				m[k] = x
+			}
 
-			return map[string]any{"campaign": campaign, "server": string(v.srv.Name), "ops": ops, "observed": o.canon()}
+			return m
+		}
+		if db.observe != nil {
+			db.observe(v, q, &o, replay)
 		}
 		// The property oracle first, independently of the model.
 		rn.c.oracle(v, db, q, &o, replay)
 		got := o.canonFor(q)
-		rn.pend = append(rn.pend, pending{lineIdx: len(rn.lines), got: got, ops: replay})
-		rn.lines = append(rn.lines, line)
+		done = append(done, served{line: line, got: got, ops: replay})
 		kind := strings.SplitN(got, " ", 2)[0]
 		nontrivial := kind != "none"
 		r.Case(string(v.srv.Name)+"|"+dbKey(db)+"|"+line, nontrivial)
@@ -1369,6 +1410,13 @@ func (rn *runner) runCase(v *srvVariant, db *dbState, reqs []*request, campaign 
 			}
 			r.Sample(map[string]any{"server": string(v.srv.Name), "req": line, "observed": got}, 9)
 		}
+	}
+	rn.lines = append(rn.lines, v.lines...)
+	rn.lines = append(rn.lines, db.lines...)
+	rn.lines = append(rn.lines, late()...)
+	for _, d := range done {
+		rn.pend = append(rn.pend, pending{lineIdx: len(rn.lines), got: d.got, ops: d.ops})
+		rn.lines = append(rn.lines, d.line)
 	}
 	r.Traces++
 	if len(rn.lines) > 20000 {
@@ -1416,7 +1464,9 @@ func main() {
 		"served by the production middleware stack of one server variant (6 protocols x linked-IP x 4 bind layouts x 3 device-domain sets) " +
 		"over one well-formed profile-database state; the device result seen behind all middlewares, the returned error, billing and query-log " +
 		"records are compared with the Lean model and checked by an independent oracle of the property; a case is non-trivial when the " +
-		"result is not plain not-found; distinct = distinct (server, DB state, request) triples"
+		"result is not plain not-found; distinct = distinct (server, DB state, request) triples; in the store campaign the database is the real " +
+		"profiledb.Default fed by the real backendpb.ProfileStorage (in-process gRPC backend) and by its own cache file, and the DB state is the " +
+		"harness's reading of the backend's messages in force"
 	m := hlib.StartModel(o.Model, "C03")
 	defer m.Close()
 
@@ -1427,6 +1477,7 @@ func main() {
 	nonASCIICampaign(o, rn, w)
 	httpCampaign(o, rn, w)
 	overlapCampaign(o, rn, w)
+	storeCampaign(o, rn)
 	if o.Thorough() {
 		exhaustiveCampaign(o, rn, w)
 	}
@@ -1555,9 +1606,9 @@ func overlapCampaign(o *hlib.Opts, rn *runner, w *world) {
 			out, line := pr.o, pr.line
 			replay := func() any {
 				return map[string]any{"campaign": "overlap", "server": string(v.srv.Name), "overlapped": overlapped, "blocked_at": point,
-					"note": "the history requests are served one after the other; then request 1 is parked at blocked_at while request 2 is served completely; this finding is about request " + fmt.Sprint(k+1),
+					"note":    "the history requests are served one after the other; then request 1 is parked at blocked_at while request 2 is served completely; this finding is about request " + fmt.Sprint(k+1),
 					"history": histLines,
-					"ops": append(append(append([]string{}, v.lines...), db.lines...), l1, l2), "observed": out.canon()}
+					"ops":     append(append(append([]string{}, v.lines...), db.lines...), l1, l2), "observed": out.canon()}
 			}
 			rn.c.oracle(v, db, pr.q, out, replay)
 			rn.pend = append(rn.pend, pending{lineIdx: len(rn.lines), got: out.canonFor(pr.q), ops: replay})
